@@ -18,6 +18,8 @@ import (
 	"github.com/relab/hotstuff/core/eventloop"
 	"github.com/relab/hotstuff/internal/proto/clientpb"
 	"github.com/relab/hotstuff/internal/tree"
+	"github.com/relab/hotstuff/metrics"
+	"google.golang.org/protobuf/proto"
 	"github.com/relab/hotstuff/protocol"
 	"github.com/relab/hotstuff/protocol/comm"
 	"github.com/relab/hotstuff/protocol/consensus"
@@ -350,6 +352,12 @@ func (nd *Node) build(base crypto.Base) error {
 	nd.cio = server.NewClientIO(nd.el, nd.log, nd.cache)
 	nd.sync = synchronizer.New(nd.el, nd.log, nd.cfg, nd.auth, nd.leader, nd.vd,
 		synchronizer.NewTimeoutRuler(nd.cfg, nd.auth), nd.prop, nd.voter, nd.states, nd.sender)
+	if p.knob("metrics", 0) == 1 {
+		// the replica-side measurements of the experiment framework: more handlers for the same events
+		if err := metrics.Enable(nd.el, nd.log, nullMetrics{}, nd.id, time.Hour, metrics.NameThroughput, metrics.NameConsensusLatency, metrics.NameViewTimeouts); err != nil {
+			return err
+		}
+	}
 	var locations []string
 	if p.knob("latmatrix", 0) == 1 {
 		// latency emulation switched on, every replica in one place (zero delay: only the bookkeeping runs)
@@ -421,6 +429,12 @@ func (nd *Node) observe() {
 		}
 	}, pri)
 }
+
+// nullMetrics discards measurements.
+type nullMetrics struct{}
+
+func (nullMetrics) Log(proto.Message) {}
+func (nullMetrics) Close() error      { return nil }
 
 // ---- seam wrappers -----------------------------------------------------------------------------
 
